@@ -163,6 +163,22 @@ def messages(chk, db, rule):
     if len(sw) != 1:
         chk.unanalysable(rule, facts.site(fn), 'GetErrorMessage is not a single switch')
         return
+    # the code that is described is the one the accessor reports: error() consults the state, the raw member shares its bytes
+    # with a held value
+    subj = ir.strip_all_casts(sw[0].get('cond') or sw[0].get('e') or {})
+    if subj.get('k') == 'ref':
+        for y in ir.walk(fn['body']):
+            if y.get('k') == 'decl':
+                for v in y['vars']:
+                    if v.get('id') == subj.get('id') and v.get('init') is not None:
+                        subj = ir.strip_all_casts(v['init'])
+    if subj.get('k') == 'call' and ir.callee_name(subj) == 'error':
+        chk.ok(rule, facts.site(fn) + ' subject', 'GetErrorMessage describes the code reported by error()')
+    elif subj.get('k') == 'mem':
+        chk.bad(rule, facts.site(fn) + ' subject', 'GetErrorMessage switches on the raw member `%s` instead of error(): while a value is held that member '
+                'shares its bytes with the value' % subj.get('n'), function=ir.fn_label(fn))
+    else:
+        chk.unanalysable(rule, facts.site(fn), 'cannot tell what GetErrorMessage switches on (%s)' % ir.show(subj)[:60])
     cases = {}
     default = None
     cur = []
